@@ -112,6 +112,12 @@ def alias_cases():
     # ... and a link in the destination that leads nowhere: a file copied "through" it would be created at a place nothing maps onto
     add("dangling-link-at-file-destination", base + [D("src2"), F("src2/p", 40, 91), D("dst"), D("dst/src2"), L("dst/src2/p", "../../other/not-there")], ["src2", "dst"], ["other/keep"], True)
     add("dangling-link-at-file-destination-T", base + [F("p", 40, 92), D("dst"), L("dst/q", "@ROOT@/other/not-there")], ["-T", "p", "dst/q"], ["other/keep"], True)
+    # ... a relative one whose text, read from the working directory instead of from the link's own directory, does name something
+    add("dangling-relative-link-whose-text-resolves-from-cwd", base + [D("pool"), F("pool/conf", 40, 93), F("conf", 40, 94), D("dst"), D("dst/pool"), F("dst/pool/keep", 5, 95), L("dst/conf", "pool/conf")],
+        ["conf", "dst"], ["pool/conf", "dst/pool/keep", "dst/pool"], True)
+    add("dangling-relative-link-whose-text-resolves-from-cwd-tree", base + [D("pool"), F("pool/conf", 40, 93), D("src3"), F("src3/conf", 40, 94), D("dst"), D("dst/src3"), D("dst/src3/pool"),
+                                                                          L("dst/src3/conf", "pool/conf"), D("src3/pool"), F("src3/pool/other", 3, 96)],
+        ["-r", "src3", "dst"], ["pool/conf"], True)
     # a top-level source that is a link to a directory is copied as a link; what the link's text happens to designate inside the
     # destination (dst/real) is a bystander and must not receive the directory's children
     add("bystander-named-like-toplevel-dirlink-target", base + [D("real"), F("real/f", 30, 21), L("ld", "real"), D("dst"), D("dst/real"), F("dst/real/f", 40, 22)],
